@@ -171,7 +171,7 @@ def refs_child(job):
 
 NESTED_SRC = """
 from __future__ import annotations
-import dataclasses, typing
+import dataclasses, enum, typing
 @dataclasses.dataclass
 class Pt:
     x: int
@@ -183,6 +183,20 @@ Uid = typing.NewType("Uid", int)
 UidAlias = typing.TypeAliasType("UidAlias", Uid)
 UidAlias2 = typing.TypeAliasType("UidAlias2", UidAlias)
 Names = typing.TypeAliasType("Names", list[str])
+class Outer:
+    @dataclasses.dataclass
+    class Inner:
+        x: int
+        tag: str = "t"
+    class Colour(enum.Enum):
+        RED = "red"
+        BLUE = "blue"
+    class Mid:
+        @dataclasses.dataclass
+        class Leaf:
+            n: int
+            inner: typing.Optional[Outer.Inner] = None
+InnerId = typing.NewType("InnerId", Outer.Inner)
 @dataclasses.dataclass
 class Tree:
     value: int
@@ -276,6 +290,35 @@ def nested_refs(seed):
                     if a != b:
                         diffs.append(f"{what}: wrapped {json.dumps(a)[:90]} vs plain {json.dumps(b)[:90]}")
                 out.append({"label": label, "ok": not diffs, "got": "; ".join(diffs)[:300]})
+    # references to NESTED classes (dotted qualified names): module-qualified text from anywhere, ForwardRef with module, the
+    # qualified name from the defining module -- each must behave like the class object
+    exec("import typelib\ndef um(ref, x):\n    return typelib.unmarshal(ref, x)\ndef mar(ref, v):\n    return typelib.marshal(v, t=ref)\n",
+         m.__dict__)
+    inner_raw, inner_val = {"x": "5", "tag": "q"}, m.Outer.Inner(5, "q")
+    leaf_raw, leaf_val = {"n": "1", "inner": {"x": "2"}}, m.Outer.Mid.Leaf(1, m.Outer.Inner(2))
+    nested = [("Outer.Inner", m.Outer.Inner, inner_raw, inner_val), ("Outer.Colour", m.Outer.Colour, "blue", m.Outer.Colour.BLUE),
+              ("Outer.Mid.Leaf", m.Outer.Mid.Leaf, leaf_raw, leaf_val), ("InnerId", m.Outer.Inner, inner_raw, inner_val),
+              ("Pt", m.Pt, pt_raw, pt_val)]
+    for qn, cls, raw, val in nested:
+        spellings = [
+            (f"'vm_c11_n.{qn}' (module-qualified text, issued from outside)", lambda: typelib.unmarshal(f"vm_c11_n.{qn}", raw),
+             lambda: typelib.marshal(val, t=f"vm_c11_n.{qn}")),
+            (f"ForwardRef('{qn}', module='vm_c11_n')", lambda: typelib.unmarshal(ref(qn), raw), lambda: typelib.marshal(val, t=ref(qn))),
+            (f"'{qn}' (text, issued from the defining module)", lambda: m.um(qn, raw), lambda: m.mar(qn, val)),
+            (f"codec('vm_c11_n.{qn}')", lambda: typelib.codec(f"vm_c11_n.{qn}").decode(typelib.codec(f"vm_c11_n.{qn}").encode(val)),
+             lambda: typelib.codec(f"vm_c11_n.{qn}").encode(val)),
+        ]
+        base_u, base_m = obs(lambda: typelib.unmarshal(cls, raw)), obs(lambda: typelib.marshal(val, t=cls))
+        base_c = (obs(lambda: typelib.codec(cls).decode(typelib.codec(cls).encode(val))), obs(lambda: typelib.codec(cls).encode(val)))
+        for label, fu, fm in spellings:
+            eu, em = (base_c if label.startswith("codec") else (base_u, base_m))
+            a, b = obs(fu), obs(fm)
+            diffs = []
+            if a != eu:
+                diffs.append(f"first op: reference {json.dumps(a)[:100]} vs type {json.dumps(eu)[:100]}")
+            if b != em:
+                diffs.append(f"second op: reference {json.dumps(b)[:100]} vs type {json.dumps(em)[:100]}")
+            out.append({"label": "reference " + label, "ok": not diffs, "got": "; ".join(diffs)[:300]})
     depth = r.randint(2, 5)
     tree = {"value": "0", "children": []}
     for i in range(depth):
